@@ -389,7 +389,8 @@ def mm_process_pegging():
     return d
 
 def st_tip908_transactions():
-    return dict(ensures=[C("dense", "HashVal(res.root()) == spec_dense_txs(self.transactions@)", "C07", det=True)])
+    return dict(requires=[C("keyed", "txs_keyed(self.transactions@)")],
+                ensures=[C("dense", "HashVal(res.root()) == spec_dense_txs(self.transactions@)", "C07", "C03", note="the post-TIP-908 root commits, per transaction, to its signature-free hash and to the hash of its whole encoding; it does not depend on the order in which the set is visited")])
 
 def ss_new():
     return dict(ensures=[C("from", "res@ == map_of_pairs(stakes@)", "C13")])
